@@ -5,7 +5,7 @@ Structural clauses decided (see DESIGN.md §3 C09):
  R09.3 sync reaches fsync of the file that append writes, R09.4 write_durable returns only the ack.
 """
 import re
-from .facts import callee, op_local, op_place
+from .facts import callee, callee_names, op_local, op_place
 from .lib import (src_of_operand, src_of_place, is_callee, switch_info, must_forward, all_paths_hit,
                   TRANSPARENT, recv_path)
 from . import lib2
@@ -28,6 +28,9 @@ def run(ck, ctx):
                      "WalRotator::sync reaches WalWriter::sync on current_writer and propagates its error; "
                      "LocalWalWriter::sync reaches File::sync_all/sync_data")
     ck.rule("R09.4", "write_durable: every Ok(..) it can return is the received ack value (no locally constructed Ok)")
+    ck.rule("R09.7", "the server awaits durability before it answers: in ReplicatedShardedState::execute the Always edge of the fsync-policy "
+                     "switch reaches the reply only through an awaited WalActorHandle::write_durable of the delta just produced (never the "
+                     "fire-and-forget call), and every delta a shard returns reaches that switch when a WAL is configured")
     ck.nd("the crash model (what the kernel persists after fsync) is trusted: fsync of a file covers every byte appended before it")
     ck.nd("behaviour for every fault sequence / batch boundary at run time (only the code shape on every path is decided)")
     for cfg in ctx.configs:
@@ -37,6 +40,7 @@ def run(ck, ctx):
         _r092(ck, prog, cfg)
         _r093(ck, prog, cfg)
         _r094(ck, prog, cfg)
+        _r097(ck, prog, cfg)
         from . import c10
         c10.r106(ck, prog, cfg, "R09.6")
         ck.fn_count += len(prog.fns)
@@ -459,3 +463,69 @@ def _from_resume(fn, o, depth=0):
                     if _from_resume(fn, rv["a"], depth + 1):
                         return True
     return False
+
+
+# ------------------------------------------------------------------------------------------------
+def _r097(ck, prog, cfg):
+    from . import lib2
+    from .lib import switch_info, edge_targets
+    fn = prog.one("production::replicated_state::ReplicatedShardedState::<T>::execute::{closure#0}")
+    sws = []
+    for b in sorted(fn.reachable_blocks()):
+        si = switch_info(fn, b)
+        if si and si["kind"] == "discr" and si["ty"].endswith("wal_config::FsyncPolicy"):
+            sws.append(b)
+    ck.check(len(sws) == 1, "R09.7", "policy-switch" + _tag(cfg), "expected exactly one switch over FsyncPolicy in ReplicatedShardedState::execute, found %d" % len(sws), fn.where())
+    if len(sws) != 1:
+        return
+    sw = sws[0]
+    names = [v["n"] for v in prog.adts["streaming::wal_config::FsyncPolicy"]["variants"]]
+    always_t = edge_targets(fn, sw, names.index("Always"))
+    durable = [b for b, t in fn.calls() if is_callee(t, r"WalActorHandle::write_durable$")]
+    ff = [b for b, t in fn.calls() if is_callee(t, r"WalActorHandle::write_fire_and_forget$")]
+    ck.check(len(durable) >= 1, "R09.7", "write_durable-called" + _tag(cfg), "write_durable is not called", fn.where())
+    done = set()
+    for b in durable:
+        aw = lib2.await_result(fn, b)
+        if aw:
+            done.add(aw[1])
+    path = lib2.path_avoiding(fn, always_t, lambda x: fn.term(x)["k"] == "return", lambda x: x in done, (), from_succ=False)
+    ck.check(bool(done) and path is None, "R09.7", "always:awaited-before-reply" + _tag(cfg),
+             "with FsyncPolicy::Always a path answers the client without having awaited write_durable (the write is reported before it "
+             "is durable)", fn.where(fn.term(sw)["ln"]), detail="awaited write_durable on every path of the Always edge")
+    ck.check(not any(x in fn.reach([always_t], avoid=[sw]) and fn.dominates(always_t, x) for x in ff), "R09.7", "always:no-fire-and-forget" + _tag(cfg),
+             "the Always edge uses write_fire_and_forget", fn.where(fn.term(sw)["ln"]), detail="fire-and-forget only under EverySecond/No")
+    # what is made durable is the delta the shard just returned
+    for b in durable:
+        t = fn.term(b)
+        o = t["args"][1]
+        from_shard = False
+        for _ in range(8):
+            ss = src_of_operand(fn, o, through_calls=(r"Arc::<.*>::clone$", r"Clone>::clone$", r"Deref>::deref$"))
+            if ss.kind != "call":
+                break
+            if is_callee(ss.term, r"ReplicatedShardHandle::execute(::\{closure#0\})?$") or "ReplicatedShardHandle::execute" in " ".join(callee_names(ss.term)):
+                from_shard = True
+                break
+            if not ss.term["args"]:
+                break
+            o = ss.term["args"][0]
+        ck.check(from_shard, "R09.7", "always:durable-delta-is-the-shard-delta" + _tag(cfg),
+                 "the value handed to write_durable does not come from the shard's reply", fn.where(t["ln"]),
+                 detail="delta from the awaited ReplicatedShardHandle::execute")
+    # the policy switch is reached for every Some(delta) when a WAL handle exists: the only exits before it are `delta == None` and `wal_handle == None`
+    shard_exec = [b for b, t in fn.calls() if is_callee(t, r"ReplicatedShardHandle::execute$")]
+    ck.check(len(shard_exec) >= 1, "R09.7", "shard-execute-site" + _tag(cfg), "shard execute call not found", fn.where())
+    for b in shard_exec[:1]:
+        aw = lib2.await_result(fn, b)
+        start = aw[1] if aw else b
+        exempt = set()
+        for sb in sorted(fn.reachable_blocks()):
+            si = switch_info(fn, sb)
+            if si and si["kind"] == "discr" and si["ty"].startswith("std::option::Option<"):
+                if "ReplicationDelta" in si["ty"] or "WalActorHandle" in si["ty"]:
+                    exempt.add((sb, edge_targets(fn, sb, 0)))
+        path = lib2.path_avoiding(fn, start, lambda x: fn.term(x)["k"] == "return", lambda x: x == sw, exempt, from_succ=False)
+        ck.check(path is None, "R09.7", "every-delta-reaches-the-wal" + _tag(cfg),
+                 "a delta returned by the shard can bypass the WAL although a WAL handle is configured", fn.where(fn.term(b)["ln"]),
+                 detail="only `no delta` and `no WAL` skip the WAL write")
